@@ -22,7 +22,7 @@ Ltac bcases H :=
   | context [match step ?c ?x with _ => _ end] => let E := fresh "Es" in destruct (step c x) eqn:E
   | context [if ?c then _ else _] => let E := fresh "Ec" in destruct c eqn:E
   end; try discriminate; inv_some.
-Ltac bsimp := unfold set_bpc, set_cs; cbn [cs cnt gen bpc lgen bco arr ldr ret inl viol].
+Ltac bsimp := unfold set_bpc, set_cs; cbn [cs cnt gen bpc lgen bco arr ldr ret lret inl viol].
 Ltac bupd_tac :=
   repeat match goal with
   | |- context [bupd ?f ?i ?v ?j] =>
